@@ -598,20 +598,17 @@ func checkMeaning(disk map[string]string, rootPath string, out []byte, opts Flat
 			}
 		}
 	}
-	// definitions that existed before
+	// definitions that existed before. With RemoveUnused a definition may disappear when nothing refers to it
+	// any more IN THE OUTPUT (e.g. after Expand, or when the only referrer was a pointer that has been re-pointed):
+	// if something still referred to it, the comparisons above would already have failed on the dangling $ref.
 	outDefs, _ := asObj(outRoot["definitions"])
-	var reach map[string]bool
-	if opts.RemoveUnused {
-		reach = reachableDefs(in, true)
-	}
 	for _, name := range sortedKeys(inDefs) {
 		od, ok := outDefs[name]
 		if !ok {
-			if opts.RemoveUnused && !reach[name] {
+			if opts.RemoveUnused {
 				continue
 			}
-			return "meaning-definition-lost", fmt.Sprintf("definition %q existed before and is %s, but is missing from the output", name,
-				map[bool]string{true: "reachable from paths", false: "not subject to removal"}[opts.RemoveUnused])
+			return "meaning-definition-lost", fmt.Sprintf("definition %q existed before but is missing from the output (RemoveUnused not requested)", name)
 		}
 		a, err := in.resolve(rootPath, mkRef("", "definitions", name), "schema")
 		if err != nil {
